@@ -20,6 +20,7 @@ import compat  # noqa: F401  (first: puts the working tree on sys.path)
 import numpy as np
 
 import core
+import gridw
 import lean as L
 import wire
 
@@ -402,6 +403,17 @@ class MaskProp(core.Prop):
                     flags.append((rng.random() < 0.08, rng.random() < 0.9))
             yield from self._with_images(R, offs, flags, "crowd", pad, rng.random() < 0.2,
                                          syms=SYMS if i % 5 == 0 else SYMS[:2])
+
+        # G. numerically fragile ties: a single blocker and a range that reaches a cell exactly on one of its rays, at
+        #    which some other floating-point evaluation order of the ray formula would miss the exact value
+        #    (gridw.fragile_ties: 273 blockers up to range 40); quick: the layout and one of its images
+        by_blocker = {}
+        for dr, dc, r, c in gridw.fragile_ties(40):
+            by_blocker[(dr, dc)] = max(by_blocker.get((dr, dc), 0), r, c)
+        for (dr, dc), R in sorted(by_blocker.items()):
+            k = (dr + 3 * dc) % 7 + 1
+            yield from self._with_images(R, [(dr, dc)], None, "fragile-tie", 0, False,
+                                         syms=[SYMS[k]] if quick else SYMS)
 
     def extra_checks(self, tier, rng, report):
         report.notes["direct_checks_on_real_code"] = self.sym_checks
